@@ -40,7 +40,8 @@ def good_query(rng):
 
 
 def task(args):
-    ci, q, ext, dflt = args
+    ci, q, ext, dflt = args[:4]
+    how = args[4] if len(args) > 4 else "E"          # how the query is evaluated the first two times: plain, or with EMPTY extra parameters
     tmp = EP.scratch()
     import shutil
     try:
@@ -48,9 +49,14 @@ def task(args):
         s = EP.ImplSession(cache, dflt)
         out = []
         EP.set_global(cache, dflt)
-        l1, o1 = s.run(("E", q))
+        first = {"E": ("E", q), "XD": ("XD", q, {}), "XL": ("XL", q, [])}[how]
+        l1, o1 = s.run(first)
         out.append((l1, {k: v for k, v in o1.items() if k != "metadata"}))
-        cacheable = o1["kind"] == "state" and not o1["is_error"] and not o1["volatile"] and o1["caching"]
+        # cacheable according to the independent reference interpreter (not according to the flags the implementation reports)
+        rf = EP.ref_flags(q, dflt)
+        cacheable = (rf is not None and not rf.get("failed") and not rf.get("volatile") and rf.get("caching", True)) if rf is not None else (
+            o1["kind"] == "state" and not o1["is_error"] and not o1["volatile"] and o1["caching"])
+        cacheable = cacheable and o1["kind"] == "state" and not o1["is_error"]
         present = None
         if cacheable:
             c = EP.canonical(q)
@@ -59,7 +65,7 @@ def task(args):
                 present = dict(contains=bool(cache.contains(c)), value=None if st is None else vocab.canon(st.data))
             except Exception as e:
                 present = dict(error=type(e).__name__)
-        l2, o2 = s.run(("E", q))
+        l2, o2 = s.run(first)
         out.append((l2, {k: v for k, v in o2.items() if k != "metadata"}))
         l3, o3 = s.run(("E", ext))
         out.append((l3, {k: v for k, v in o3.items() if k != "metadata"}))
@@ -80,19 +86,24 @@ def gen(ctx, per_config):
             parts = q.split("/")
             pre = "/".join(parts[:rng.randint(1, len(parts))])
             ext = pre + "/" + "/".join(H.g_action(rng, 1, False, 0.0) for _ in range(rng.randint(1, 2)))
-            items.append((ci, q, ext, {} if rng.random() < 0.8 else {"a": "dflt"}))
+            if rng.random() < 0.2:
+                q, ext = "/" + q, "/" + ext          # absolute spelling: prefixes and extensions keep the leading slash
+            how = rng.choice(["E", "E", "E", "XD", "XL"])      # empty extra parameters (what the web front-ends always pass) are no extra parameters
+            items.append((ci, q, ext, {} if rng.random() < 0.8 else {"a": "dflt"}, how))
     return cfgs, items
 
 
 def judge(ctx, cfgs, items, results):
     from liquer.commands import command_registry
-    for (ci, q, ext, dflt), (out, cacheable, present) in zip(items, results):
+    for (ci, q, ext, dflt, *how_), (out, cacheable, present) in zip(items, results):
         name = cfgs[ci][0]
         ctx.count("configuration", name)
         (l1, o1), (l2, o2), (l3, o3) = out
         ctx.case(("%s|%s" % (name, q)) if cacheable and q.count("/") >= 1 else None)
         ctx.count("first evaluation", "cacheable" if cacheable else "not cacheable")
-        case = dict(kind="reuse", config=name, query=q, extension=ext, defaults=dflt)
+        case = dict(kind="reuse", config=name, query=q, extension=ext, defaults=dflt, how=(how_[0] if how_ else "E"))
+        ctx.count("first evaluations", {"E": "plain", "XD": "extra_parameters={}", "XL": "extra_parameters=[]"}[case["how"]])
+        ctx.count("spelling", "absolute" if q.startswith("/") else "relative")
         if not cacheable:
             continue
         if o2["calls"]:
@@ -138,8 +149,10 @@ def run(ctx):
     cfgs, items = gen(ctx, per)
     results = EP.common.pmap(task, items)
     judge(ctx, cfgs, items, results)
-    sessions = [([("E", q), ("E", q), ("E", ext)], dflt) for ci, q, ext, dflt in items]
-    kinds = [cfgs[ci][2] for ci, q, ext, dflt in items]
+    def first(q, how):
+        return {"E": ("E", q), "XD": ("XD", q, {}), "XL": ("XL", q, [])}[how]
+    sessions = [([first(q, how), first(q, how), ("E", ext)], dflt) for ci, q, ext, dflt, how in items]
+    kinds = [cfgs[ci][2] for ci, q, ext, dflt, how in items]
     lines = [" | ".join(l for l, _ in out) for out, _, _ in results]
     EP.model_sessions(ctx, "evaluate, re-evaluate, evaluate an extension (calls and cache content) vs evaluator model", sessions, kinds, lines)
 
@@ -155,6 +168,6 @@ def replay(ctx, case):
     cfgs = EP.cache_configs("/nonexistent")
     ci = [c[0] for c in cfgs].index(case["config"])
     c2 = type(ctx)("C09", ctx.tier, ctx.seed)
-    items = [(ci, case["query"], case["extension"], case["defaults"])]
+    items = [(ci, case["query"], case["extension"], case["defaults"], case.get("how", "E"))]
     judge(c2, cfgs, items, [task(items[0])])
     return c2.violations[0]["what"] if c2.violations else None
